@@ -322,7 +322,9 @@ pub fn run(ctx: &Ctx) -> Result<Ev, String> {
     let shards = 32usize;
     let per = (if ctx.thorough { 1_500_000 } else { 120_000 } / shards) as u32;
     let seed = ctx.seed;
-    let total = par::run_shards("C06", shards, |s| par::prop_shard("C06", seed, s, per, &raw_data(), |c, ev| test(c, ev, &opts)));
+    let mut total = par::run_shards("C06", shards, |s| par::prop_shard("C06", seed, s, per, &raw_data(), |c, ev| test(c, ev, &opts)));
+    // long tables and data lines whose operands are costly to evaluate (values known by construction)
+    crate::props::c05::scale_leg(&mut total, "c06");
     if total.discarded * 20 > total.evaluations {
         return Err(format!("generator unsound: {} of {} programs inconsistent with the model's judgement", total.discarded, total.evaluations));
     }
